@@ -59,10 +59,14 @@ package goja
 //@ jspreserved vm.stash vm.privEnv vm.tryStack vm.callStack
 //@ jspreserved tryFrame.exception tryFrame.callStackLen tryFrame.iterLen tryFrame.refLen tryFrame.sp tryFrame.stash tryFrame.privEnv tryFrame.catchPos tryFrame.finallyPos tryFrame.finallyRet
 
-// Assumed contract of restoreStacks (closes iterators through vm.try: closure-based, not verified):
+// restoreStacks: whatever the iterators' return() methods do (vm.try runs script: arbitrary effect
+// on everything not listed under jspreserved), BOTH auxiliary stacks are cut back to the recorded
+// heights on every returning path.
 //@ func (*vm).restoreStacks
 //@   props C03 C08
-//@   trusted
+//@   requires vm != nil
+//@   loop 1 invariant true [closing-iterators]
+//@   loop 2 invariant true [clearing-references]
 //@   ensures len(vm.iterStack) == int(iterLen) && len(vm.refStack) == int(refLen) [heights]
 
 // handleThrow: only JS-visible errors are ever delivered to a catch or finally; everything else
